@@ -174,7 +174,7 @@ Definition judge_c10 (e : env) (raw : node) (src : string) (impl_kind : N) (impl
 
 (** ** Go level: the struct a :one/:many method returns (or its single column),
     read back from the emitted package: db tag and Go type per field *)
-From Verif Require Import Model.GoTypes.
+From Verif Require Import Model.GoTypes Model.GoStruct.
 
 Definition strip_suffix_ok (tag name : string) : bool :=
   String.eqb tag name || has_prefix tag (name +++ "_").
@@ -228,7 +228,9 @@ Definition judge_go_ret (e : env) (q : query) (scan_count : nat) (ret_is_model :
          end);
     b2n (if Nat.ltb n 2 then true
          else if ret_is_model then fields_match c 0 fields (q_columns q) true && list_eqb String.eqb (map fst fields) (map qc_name (q_columns q))
-         else negb (is_whole_table c (q_columns q))) ].
+         else negb (is_whole_table c (q_columns q)));
+    (* the db tags are exactly those of the columnsToStruct model (Model/GoStruct.v) *)
+    b2n (Nat.ltb n 2 || list_eqb String.eqb (map fst fields) (row_tags (map qc_name (q_columns q)))) ].
 
 (** ** C07: the expanded statement returns the same row, column by column, as
     the statement with stars: same names, same source columns *)
